@@ -223,6 +223,27 @@ def _run_points(case, ck):
         ck.true("scalar-z", sc.shape == arr.shape and
                 np.array_equal(sc, arr, equal_nan=True),
                 "scalar z (cyl->cart) gives a different result")
+    # integer-dtype x and y (pixel indices) with a non-integer scalar z
+    xi = np.arange(-2, 3)
+    yi = np.array([3, -1, 0, 2, 1])
+    for zval in (2.5, -0.75):
+        a = T[("cartesian", "cylindrical")]([xi, yi, zval])
+        b = T[("cartesian", "cylindrical")](
+            np.array([xi.astype(float), yi.astype(float),
+                      np.full(5, zval)]))
+        ck.trans += 2
+        ck.true("scalar-z-integer-xy", np.asarray(a).shape == b.shape and
+                np.allclose(np.asarray(a, dtype=float), b, rtol=0,
+                            atol=1e-15),
+                "integer-dtype x, y with scalar z=%r: %r vs float arrays %r"
+                % (zval, np.asarray(a).tolist(), b.tolist()))
+        rho = np.hypot(xi, yi).astype(float)
+        c = T[("cylindrical", "cartesian")]([xi, np.zeros(5), zval])
+        ck.trans += 1
+        ck.true("scalar-z-integer-xy", np.allclose(np.asarray(
+            c, dtype=float)[2], zval, rtol=0, atol=0),
+            "cylindrical->cartesian with integer rho and scalar z=%r "
+            "returned z %r" % (zval, np.asarray(c)[2].tolist()))
     return digest(np.round(sph[:, m], 9), np.round(cyl[:, m], 9))
 
 
@@ -278,14 +299,14 @@ def _run_angles(case, ck):
     return digest(*acc)
 
 
-def _mk(members):
+def _mk(members, arrays=False):
     from holopy.scattering import Sphere
     out = []
     for i in members:
         n, r, c = MEMBERS[i]
         out.append(Sphere(n=n if not isinstance(n, list) else list(n),
                           r=r if not isinstance(r, list) else list(r),
-                          center=c))
+                          center=np.array(c, dtype=float) if arrays else c))
     return out
 
 
@@ -371,6 +392,37 @@ def _run_composite(case, ck):
                         "translated() changed the type")
         ck.true("original-untouched", _state(comp) == before,
                 "rotated()/translated() modified the original composite")
+        # members whose centres are float arrays; the same composite used
+        # twice, and results chained: nothing may share state
+        with warnings.catch_warnings():
+            warnings.simplefilter("ignore")
+            ca = cls(_mk(case["members"], arrays=True))
+            s0 = _state(ca)
+            v = np.array([1.0, -2.0, 3.0])
+            t1 = ca.translated(v)
+            s1 = _state(t1)
+            t2 = t1.translated(*v)
+            r1 = ca.rotated(0.3, 0.4, 0.5)
+            sr = _state(r1)
+            t3 = ca.translated(v)
+            r2 = r1.rotated((0.1, 0.2, 0.3))
+            ck.trans += 5
+        ck.true("original-untouched", _state(ca) == s0, "translated()/"
+                "rotated() moved the original composite (array centres)")
+        ck.true("result-not-aliased", _state(t1) == s1 and _state(r1) == sr,
+                "an earlier result changed when a later call was made")
+        Ca = np.array([np.asarray(s.center, float) for s in ca.scatterers])
+        for nm, obj, shift in (("t1", t1, v), ("t2", t2, 2 * v),
+                               ("t3", t3, v)):
+            Cx = np.array([np.asarray(s.center, float)
+                           for s in obj.scatterers])
+            e = np.abs(Cx - (Ca + shift)).max()
+            ck.true("trans-shift", e <= 1e-12, "chained / repeated "
+                    "translation %s: members off by %.2e" % (nm, e))
+        Cr = np.array([np.asarray(s.center, float) for s in r1.scatterers])
+        e = np.abs(Cr.mean(0) - Ca.mean(0)).max()
+        ck.true("rot-centroid", e <= 1e-11, "centroid moved by %.2e under "
+                "rotation after an earlier translated() call" % e)
     return digest(*acc)
 
 
